@@ -53,6 +53,6 @@ Definition ex_cmds := [ mkCmd (s2b "A1") (s2b "LOGIN") [mkArg ex_payload FSync; 
 Example C04_nonvacuous :
   forallb wf_cmd ex_cmds = true /\
   tags_upto ex_cmds = map s2b ["A1"; "A2"; "A3"; "A4"; "A5"]%string /\
-  out_tags (rev (fs_out (run_stream (mkFcfg true false false (fun _ => false)) SNotAuth (render ex_cmds))))
+  out_tags (rev (fs_out (run_stream (mkFcfg true false false (fun _ => false) (fun _ => false)) SNotAuth (render ex_cmds))))
     = map s2b ["A1"; "A2"; "A3"; "A4"; "A5"]%string.
 Proof. vm_compute. repeat split. Qed.
